@@ -1,101 +1,109 @@
 (* Model/C13.v — hand-written executable model of oslo_utils.timeutils.StopWatch
-   (definitions only; lemmas are in Proofs/C13.v, the statement-level translation of the
+   (definitions only; lemmas are in Proofs/C13*.v, the statement-level translation of the
    source that this model is proved equal to is Gen/C13_StopWatch.v).
 
-   The clock is an infinite stream [clk : nat -> Z]; the configuration of a watch is the
+   Generic in the number type: T with the operations N : num T (Base/C13_Types.v).  Instances:
+   Model/C13_Z.v (exact arithmetic, the ordered group Z) and Model/C13_Float.v (binary64).
+
+   The clock is an infinite stream [clk : nat -> T]; the configuration of a watch is the
    pair (fields, number of now() calls made so far).  Every method returns the
    configuration at the END of the call — also when the call raises — and the outcome. *)
-From Coq Require Import ZArith List Bool.
+From Coq Require Import List Bool.
 Require Import OV.Base.Bytes OV.Base.Py OV.Base.C13_Types.
 Import ListNotations.
-Open Scope Z_scope.
 
 Inductive wstate := SNone | SStarted | SStopped.     (* _state: None | _STARTED | _STOPPED *)
 
-Record watch := mkWatch {
+Record watch (T : Type) := mkWatch {
   w_state : wstate;
-  w_started : option Z;      (* _started_at *)
-  w_stopped : option Z;      (* _stopped_at *)
-  w_splits : list split;     (* _splits *)
-  w_duration : option Z      (* _duration *)
+  w_started : option T;        (* _started_at *)
+  w_stopped : option T;        (* _stopped_at *)
+  w_splits : list (split T);   (* _splits *)
+  w_duration : option T        (* _duration *)
 }.
+Arguments mkWatch {T}.
+Arguments w_state {T}.
+Arguments w_started {T}.
+Arguments w_stopped {T}.
+Arguments w_splits {T}.
+Arguments w_duration {T}.
 
-Definition cfg : Type := (watch * nat)%type.
-Definition out (A : Type) : Type := (cfg * res A)%type.
+Definition cfg (T : Type) : Type := (watch T * nat)%type.
+Definition out (T A : Type) : Type := (cfg T * res A)%type.
 
-Definition set_state (w : watch) (s : wstate) : watch :=
+Definition set_state {T} (w : watch T) (s : wstate) : watch T :=
   mkWatch s (w_started w) (w_stopped w) (w_splits w) (w_duration w).
-Definition set_splits (w : watch) (l : list split) : watch :=
+Definition set_splits {T} (w : watch T) (l : list (split T)) : watch T :=
   mkWatch (w_state w) (w_started w) (w_stopped w) l (w_duration w).
 
+(* max(0.0, x): x if x > 0.0 else 0.0 *)
+Definition max0 {T} (N : num T) (x : T) : T := n_max N (n_zero N) x.
+
 (* StopWatch(duration) *)
-Definition init (duration : option Z) : res watch :=
+Definition init {T} (N : num T) (duration : option T) : res (watch T) :=
   match duration with
-  | Some d => if d <? 0 then Exn ValueError else Ok (mkWatch SNone None None [] (Some d))
+  | Some d => if n_gtb N (n_zero N) d then Exn ValueError else Ok (mkWatch SNone None None [] (Some d))
   | None => Ok (mkWatch SNone None None [] None)
   end.
 
 (* _delta_seconds *)
-Definition delta (earlier later : Z) : Z := Z.max 0 (later - earlier).
+Definition delta {T} (N : num T) (earlier later : T) : T := max0 N (n_sub N later earlier).
 
 (* the `maximum` clause of elapsed() *)
-Definition clamp_max (maximum : option Z) (e : Z) : Z :=
+Definition clamp_max {T} (N : num T) (maximum : option T) (e : T) : T :=
   match maximum with
-  | Some m => if e >? m then Z.max 0 m else e
+  | Some m => if n_gtb N e m then max0 N m else e
   | None => e
   end.
 
-Section Methods.
-Variable clk : nat -> Z.
-
-Definition start (w : watch) (t : nat) : out unit :=
+Definition start {T} (N : num T) (clk : nat -> T) (w : watch T) (t : nat) : out T unit :=
   match w_state w with
   | SStarted => ((w, t), Ok tt)
   | _ => ((mkWatch SStarted (Some (clk t)) None [] (w_duration w), S t), Ok tt)
   end.
 
-Definition stop (w : watch) (t : nat) : out unit :=
+Definition stop {T} (N : num T) (clk : nat -> T) (w : watch T) (t : nat) : out T unit :=
   match w_state w with
   | SStopped => ((w, t), Ok tt)
   | SNone => ((w, t), Exn RuntimeError)
   | SStarted => ((mkWatch SStopped (w_started w) (Some (clk t)) (w_splits w) (w_duration w), S t), Ok tt)
   end.
 
-Definition resume (w : watch) (t : nat) : out unit :=
+Definition resume {T} (N : num T) (clk : nat -> T) (w : watch T) (t : nat) : out T unit :=
   match w_state w with
   | SStopped => ((set_state w SStarted, t), Ok tt)
   | _ => ((w, t), Exn RuntimeError)
   end.
 
-Definition restart (w : watch) (t : nat) : out unit :=
+Definition restart {T} (N : num T) (clk : nat -> T) (w : watch T) (t : nat) : out T unit :=
   match w_state w with
   | SStarted => ((mkWatch SStarted (Some (clk (S t))) None [] (w_duration w), S (S t)), Ok tt)   (* stop(); start() *)
   | _ => ((mkWatch SStarted (Some (clk t)) None [] (w_duration w), S t), Ok tt)
   end.
 
 (* a None timestamp used as a number is CPython's TypeError (unreachable: Proofs/C13.v) *)
-Definition elapsed (w : watch) (t : nat) (maximum : option Z) : out Z :=
+Definition elapsed {T} (N : num T) (clk : nat -> T) (w : watch T) (t : nat) (maximum : option T) : out T T :=
   match w_state w with
   | SNone => ((w, t), Exn RuntimeError)
   | SStopped =>
       match w_started w, w_stopped w with
-      | Some s, Some p => ((w, t), Ok (clamp_max maximum (delta s p)))
+      | Some s, Some p => ((w, t), Ok (clamp_max N maximum (delta N s p)))
       | _, _ => ((w, t), Exn TypeError)
       end
   | SStarted =>
       match w_started w with
-      | Some s => ((w, S t), Ok (clamp_max maximum (delta s (clk t))))
+      | Some s => ((w, S t), Ok (clamp_max N maximum (delta N s (clk t))))
       | None => ((w, S t), Exn TypeError)
       end
   end.
 
-Definition split_ (w : watch) (t : nat) : out split :=
+Definition split_ {T} (N : num T) (clk : nat -> T) (w : watch T) (t : nat) : out T (split T) :=
   match w_state w with
   | SStarted =>
       match w_started w with
       | Some s =>
-          let e := delta s (clk t) in
-          let len := match last_opt (w_splits w) with Some l => delta (sp_elapsed l) e | None => e end in
+          let e := delta N s (clk t) in
+          let len := match last_opt (w_splits w) with Some l => delta N (sp_elapsed l) e | None => e end in
           let sp := mkSplit e len in
           ((set_splits w (w_splits w ++ [sp]), S t), Ok sp)
       | None => ((w, S t), Exn TypeError)
@@ -103,101 +111,119 @@ Definition split_ (w : watch) (t : nat) : out split :=
   | _ => ((w, t), Exn RuntimeError)
   end.
 
-Definition leftover (w : watch) (t : nat) (return_none : bool) : out (option Z) :=
+Definition leftover {T} (N : num T) (clk : nat -> T) (w : watch T) (t : nat) (return_none : bool) : out T (option T) :=
   match w_state w with
   | SStarted =>
       match w_duration w with
       | None => if return_none then ((w, t), Ok None) else ((w, t), Exn RuntimeError)
       | Some d =>
-          match elapsed w t None with
-          | (c, Ok e) => (c, Ok (Some (Z.max 0 (d - e))))
+          match elapsed N clk w t None with
+          | (c, Ok e) => (c, Ok (Some (max0 N (n_sub N d e))))
           | (c, Exn x) => (c, Exn x)
           end
       end
   | _ => ((w, t), Exn RuntimeError)
   end.
 
-Definition expired (w : watch) (t : nat) : out bool :=
+Definition expired {T} (N : num T) (clk : nat -> T) (w : watch T) (t : nat) : out T bool :=
   match w_state w with
   | SNone => ((w, t), Exn RuntimeError)
   | _ =>
       match w_duration w with
       | None => ((w, t), Ok false)
       | Some d =>
-          match elapsed w t None with
-          | (c, Ok e) => (c, Ok (e >? d))
+          match elapsed N clk w t None with
+          | (c, Ok e) => (c, Ok (n_gtb N e d))
           | (c, Exn x) => (c, Exn x)
           end
       end
   end.
 
-Definition has_started (w : watch) (t : nat) : out bool :=
+Definition has_started {T} (w : watch T) (t : nat) : out T bool :=
   ((w, t), Ok (match w_state w with SStarted => true | _ => false end)).
-Definition has_stopped (w : watch) (t : nat) : out bool :=
+Definition has_stopped {T} (w : watch T) (t : nat) : out T bool :=
   ((w, t), Ok (match w_state w with SStopped => true | _ => false end)).
-Definition splits (w : watch) (t : nat) : out (list split) := ((w, t), Ok (w_splits w)).
+Definition splits {T} (w : watch T) (t : nat) : out T (list (split T)) := ((w, t), Ok (w_splits w)).
 
-Definition enter (w : watch) (t : nat) : out unit := start w t.
+Definition enter {T} (N : num T) (clk : nat -> T) (w : watch T) (t : nat) : out T unit := start N clk w t.
+
 (* __exit__(type, value, traceback) ignores its arguments, returns None (so an exception raised in the
    with-body propagates) and swallows the RuntimeError of stop() *)
-Definition exit_ (w : watch) (t : nat) : out unit :=
-  match stop w t with
+Definition exit_ {T} (N : num T) (clk : nat -> T) (w : watch T) (t : nat) : out T unit :=
+  match stop N clk w t with
   | (c, Exn RuntimeError) => (c, Ok tt)
   | o => o
   end.
 
 (* ---- the method alphabet and histories ---- *)
-Inductive op :=
+Inductive op (T : Type) :=
 | OStart | OStop | OResume | ORestart | OSplit
-| OElapsed (maximum : option Z) | OLeftover (return_none : bool) | OExpired
+| OElapsed (maximum : option T) | OLeftover (return_none : bool) | OExpired
 | OHasStarted | OHasStopped | OSplits | OEnter
 | OExit (exc : bool).     (* __exit__(type, value, traceback); exc = (type is not None): the with-body raised *)
+Arguments OStart {T}.
+Arguments OStop {T}.
+Arguments OResume {T}.
+Arguments ORestart {T}.
+Arguments OSplit {T}.
+Arguments OElapsed {T}.
+Arguments OLeftover {T}.
+Arguments OExpired {T}.
+Arguments OHasStarted {T}.
+Arguments OHasStopped {T}.
+Arguments OSplits {T}.
+Arguments OEnter {T}.
+Arguments OExit {T}.
 
-Inductive value :=
-| VSelf | VNone | VNum (z : Z) | VBool (b : bool) | VSplit (s : split) | VSplits (l : list split).
+Inductive value (T : Type) :=
+| VSelf | VNone | VNum (z : T) | VBool (b : bool) | VSplit (s : split T) | VSplits (l : list (split T)).
+Arguments VSelf {T}.
+Arguments VNone {T}.
+Arguments VNum {T}.
+Arguments VBool {T}.
+Arguments VSplit {T}.
+Arguments VSplits {T}.
 
-Definition wrap {A} (f : A -> value) (o : out A) : out value :=
+Definition wrap {T A} (f : A -> value T) (o : out T A) : out T (value T) :=
   match o with (c, Ok a) => (c, Ok (f a)) | (c, Exn e) => (c, Exn e) end.
 
-Definition step (o : op) (w : watch) (t : nat) : out value :=
+Definition step {T} (N : num T) (clk : nat -> T) (o : op T) (w : watch T) (t : nat) : out T (value T) :=
   match o with
-  | OStart => wrap (fun _ => VSelf) (start w t)
-  | OStop => wrap (fun _ => VSelf) (stop w t)
-  | OResume => wrap (fun _ => VSelf) (resume w t)
-  | ORestart => wrap (fun _ => VSelf) (restart w t)
-  | OSplit => wrap VSplit (split_ w t)
-  | OElapsed m => wrap VNum (elapsed w t m)
-  | OLeftover rn => wrap (fun x => match x with Some z => VNum z | None => VNone end) (leftover w t rn)
-  | OExpired => wrap VBool (expired w t)
+  | OStart => wrap (fun _ => VSelf) (start N clk w t)
+  | OStop => wrap (fun _ => VSelf) (stop N clk w t)
+  | OResume => wrap (fun _ => VSelf) (resume N clk w t)
+  | ORestart => wrap (fun _ => VSelf) (restart N clk w t)
+  | OSplit => wrap VSplit (split_ N clk w t)
+  | OElapsed m => wrap VNum (elapsed N clk w t m)
+  | OLeftover rn => wrap (fun x => match x with Some z => VNum z | None => VNone end) (leftover N clk w t rn)
+  | OExpired => wrap VBool (expired N clk w t)
   | OHasStarted => wrap VBool (has_started w t)
   | OHasStopped => wrap VBool (has_stopped w t)
   | OSplits => wrap VSplits (splits w t)
-  | OEnter => wrap (fun _ => VSelf) (enter w t)
-  | OExit _ => wrap (fun _ => VNone) (exit_ w t)
+  | OEnter => wrap (fun _ => VSelf) (enter N clk w t)
+  | OExit _ => wrap (fun _ => VNone) (exit_ N clk w t)
   end.
 
 (* a history: the calls are made one after the other on the same watch and clock *)
-Fixpoint trace (ops : list op) (w : watch) (t : nat) : list (cfg * res value) :=
+Fixpoint trace {T} (N : num T) (clk : nat -> T) (ops : list (op T)) (w : watch T) (t : nat) : list (cfg T * res (value T)) :=
   match ops with
   | [] => []
-  | o :: rest => let '((w', t'), r) := step o w t in ((w', t'), r) :: trace rest w' t'
+  | o :: rest => let '((w', t'), r) := step N clk o w t in ((w', t'), r) :: trace N clk rest w' t'
   end.
 
-Fixpoint final (ops : list op) (w : watch) (t : nat) : cfg :=
+Fixpoint final {T} (N : num T) (clk : nat -> T) (ops : list (op T)) (w : watch T) (t : nat) : cfg T :=
   match ops with
   | [] => (w, t)
-  | o :: rest => let '((w', t'), _) := step o w t in final rest w' t'
+  | o :: rest => let '((w', t'), _) := step N clk o w t in final N clk rest w' t'
   end.
 
-End Methods.
-
 (* configurations that some history reaches from a freshly constructed watch *)
-Definition reachable (clk : nat -> Z) (c : cfg) : Prop :=
-  exists duration w0 ops, init duration = Ok w0 /\ final clk ops w0 0%nat = c.
+Definition reachable {T} (N : num T) (clk : nat -> T) (c : cfg T) : Prop :=
+  exists duration w0 ops, init N duration = Ok w0 /\ final N clk ops w0 0%nat = c.
 
 (* the legality table of the property: which calls are legal in which state
    (leftover additionally needs a duration unless return_none is set) *)
-Definition legal (o : op) (w : watch) : bool :=
+Definition legal {T} (o : op T) (w : watch T) : bool :=
   match o, w_state w with
   | OStart, _ | ORestart, _ | OEnter, _ | OExit _, _ => true
   | OHasStarted, _ | OHasStopped, _ | OSplits, _ => true
@@ -216,7 +242,7 @@ Definition legal (o : op) (w : watch) : bool :=
   end.
 
 (* number of now() calls a call makes *)
-Definition cost (o : op) (w : watch) : nat :=
+Definition cost {T} (o : op T) (w : watch T) : nat :=
   match o, w_state w with
   | OStart, SStarted | OEnter, SStarted => 0
   | OStart, _ | OEnter, _ => 1
@@ -232,33 +258,17 @@ Definition cost (o : op) (w : watch) : nat :=
 
 (* ---- vocabulary of the property statements (Properties/C13.v) ---- *)
 
-(* the clock does not go backwards on its first n readings (the readings a history consumed) *)
-Definition monotone_upto (clk : nat -> Z) (n : nat) : Prop :=
-  forall i, (S i < n)%nat -> clk i <= clk (S i).
-Definition monotone_uptob (clk : nat -> Z) (n : nat) : bool :=
-  forallb (fun i => clk i <=? clk (S i)) (seq 0 (n - 1)).
-
-(* lengths are the successive differences of the elapsed values (the first one counts from 0) *)
-Fixpoint diffs_from (prev : Z) (l : list split) : Prop :=
+(* what the code does on any clock and for any number type: the first length is the elapsed value
+   itself, later ones are _delta_seconds(previous elapsed, elapsed) *)
+Fixpoint clamped_diffs_from {T} (N : num T) (prev : option T) (l : list (split T)) : Prop :=
   match l with
   | [] => True
-  | x :: r => sp_length x = sp_elapsed x - prev /\ diffs_from (sp_elapsed x) r
+  | x :: r => sp_length x = match prev with Some p => delta N p (sp_elapsed x) | None => sp_elapsed x end
+              /\ clamped_diffs_from N (Some (sp_elapsed x)) r
   end.
-
-(* what the code does on any clock: the first length is the elapsed value itself, later ones
-   are clamped differences (_delta_seconds) *)
-Fixpoint clamped_diffs_from (prev : option Z) (l : list split) : Prop :=
-  match l with
-  | [] => True
-  | x :: r => sp_length x = match prev with Some p => delta p (sp_elapsed x) | None => sp_elapsed x end
-              /\ clamped_diffs_from (Some (sp_elapsed x)) r
-  end.
-
-(* all states / a watch in a given state, for the legality table *)
-Definition in_state (s : wstate) (w : watch) : Prop := w_state w = s.
 
 (* a call that (re)starts the watch: start/__enter__ on a watch that is not running, restart always *)
-Definition effective_restart (o : op) (w : watch) : bool :=
+Definition effective_restart {T} (o : op T) (w : watch T) : bool :=
   match o, w_state w with
   | OStart, SStarted | OEnter, SStarted => false
   | OStart, _ | OEnter, _ => true
@@ -267,35 +277,38 @@ Definition effective_restart (o : op) (w : watch) : bool :=
   end.
 
 (* a call that stops a running watch *)
-Definition effective_stop (o : op) (w : watch) : bool :=
+Definition effective_stop {T} (o : op T) (w : watch T) : bool :=
   match o, w_state w with
   | OStop, SStarted | OExit _, SStarted => true
   | _, _ => false
   end.
 
-Definition all_ops (m : option Z) (rn : bool) : list op :=
+Definition all_ops {T} (m : option T) (rn : bool) : list (op T) :=
   [OStart; OStop; OResume; ORestart; OSplit; OElapsed m; OLeftover rn; OExpired;
    OHasStarted; OHasStopped; OSplits; OEnter; OExit false; OExit true].
 
 (* does some call of the history (re)start the watch / stop or (re)start it? *)
-Fixpoint restarts_in (clk : nat -> Z) (ops : list op) (w : watch) (t : nat) : bool :=
+Fixpoint restarts_in {T} (N : num T) (clk : nat -> T) (ops : list (op T)) (w : watch T) (t : nat) : bool :=
   match ops with
   | [] => false
-  | o :: r => effective_restart o w || (let '((w', t'), _) := step clk o w t in restarts_in clk r w' t')
+  | o :: r => effective_restart o w || (let '((w', t'), _) := step N clk o w t in restarts_in N clk r w' t')
   end.
 
-Fixpoint stops_in (clk : nat -> Z) (ops : list op) (w : watch) (t : nat) : bool :=
+Fixpoint stops_in {T} (N : num T) (clk : nat -> T) (ops : list (op T)) (w : watch T) (t : nat) : bool :=
   match ops with
   | [] => false
   | o :: r => effective_stop o w || effective_restart o w ||
-              (let '((w', t'), _) := step clk o w t in stops_in clk r w' t')
+              (let '((w', t'), _) := step N clk o w t in stops_in N clk r w' t')
   end.
 
-(* the literal reading of "elapsed never exceeds a requested maximum", for EVERY maximum — false for a
-   negative maximum, where it contradicts "elapsed is never negative" (Proofs/C13.v: elapsed_max_literal_refuted);
-   the theorems carry the zone hypothesis 0 <= maximum instead *)
-Definition C13_elapsed_max_full_statement : Prop :=
-  forall clk w t m c e, elapsed clk w t (Some m) = (c, Ok e) -> e <= m.
-
 (* the with statement:  with sw: body  [raise X]   =   __enter__(); body; __exit__(exception triple | None) *)
-Definition with_block (body : list op) (exc : bool) : list op := OEnter :: body ++ [OExit exc].
+Definition with_block {T} (body : list (op T)) (exc : bool) : list (op T) := OEnter :: body ++ [OExit exc].
+
+(* the splits obtained by reading the clock at the ticks ks while started_at = s *)
+Fixpoint build {T} (N : num T) (clk : nat -> T) (s : T) (prev : option T) (ks : list nat) : list (split T) :=
+  match ks with
+  | [] => []
+  | k :: r =>
+      let e := delta N s (clk k) in
+      mkSplit e (match prev with Some p => delta N p e | None => e end) :: build N clk s (Some e) r
+  end.
